@@ -479,7 +479,7 @@ PARTS = {
     "C11": [part_guards("C11"), part_errflow("C11"), part_tables(["T8", "T12", "T7"], {"T7": ["pentagonDirectionFaces"]}, pid="C11"), part_slice, part_wit("C11")],
     "C12": [part_guards("C12"), part_bitprov("validity"), part_bitprov("indexops", "C12"), part_ret, part_errdisc, part_errflow("C12"), part_ovf, part_idx, part_unitvec, part_bw(None), part_hashmod(None, 5), part_cform("C12"), part_wit("C12")],
     "C13": [part_guards("C13"), part_errflow("C13"), part_bitprov("indexops", "C13"), part_cform("C13"), part_wit("C13")], "C14": [part_guards("C14"), part_errflow("C14"), part_bw("C14"), part_cform("C14"), part_tables(["T14", "T20", "T21", "T22"], pid="C14"), part_unitvec], "C15": [part_guards("C15"), part_errflow("C15"), part_bw("C15"), part_sib, part_tables(["T17", "T18"], pid="C15"), part_wit("C15")],
-    "C19": [part_tables(["T5", "T9"], pid="C19"), part_bw("C19"), part_cform("C19"), part_wit("C19")],
+    "C19": [part_guards("C19"), part_tables(["T5", "T9"], pid="C19"), part_bw("C19"), part_cform("C19"), part_wit("C19")],
     "C20": [part_guards("C20"), part_fmt, part_wit("C20")],
 }
 
@@ -502,6 +502,13 @@ def composite(pid):
     def run_one(ctx):
         for part in PARTS[pid]:
             part(ctx)
+        # progression tables (per-resolution powers) reachable from the property's code have no deviant entry
+        if pid in PROP_ENTRIES:
+            from . import rules_prog
+            try:
+                rules_prog.check(ctx, module(CFG[0], "ssa"), CFG[0], reach(pid)[1])
+            except AnalysisBroken as e:
+                ctx.broken("R-PROG", str(e))
         # the validity predicate is part of every property whose code reaches isValidCell
         if pid in PROP_ENTRIES and "isValidCell" in reach(pid)[0] and not any(o["rule"] == "R-BITPROV" and isinstance(o["instance"], dict) and o["instance"].get("function") == "isValidCell" for o in ctx.obligations):
             part_bitprov("validity")(ctx)
